@@ -79,6 +79,11 @@ def main() -> int:
         d = docs.clone(d)
         d["info"]["title"] = "Option Test API"
         basedocs.append((f"matrix:{l}", d, {"matrix", l}))
+    for l, d in docs.union_model_docs()[:: (2 if quick else 1)]:
+        d = docs.clone(d)
+        d["info"]["title"] = "Option Test API"
+        d["components"]["schemas"] = dict(list(d["components"]["schemas"].items())[4:10] + list(d["components"]["schemas"].items())[:4] + list(d["components"]["schemas"].items())[10:])  # (the first six models get instances)
+        basedocs.append((f"{l}", d, {"union_models", l}))
     # custom template directory: override one small template
     tdir = scratch() / "custom_templates"
     tdir.mkdir(parents=True, exist_ok=True)
@@ -137,6 +142,13 @@ def main() -> int:
             add("meta", meta, meta=meta)
         add("file_encoding", "utf-16", meta="none", file_encoding="utf-16")
         add("custom_template_path", "endpoint_init", meta="none", custom_template_path=str(tdir))
+        if bi % 4 == 1:
+            # the command line route with a configuration *file* holding non-ASCII text: --file-encoding is about the files written, not about how the configuration is read
+            ccfg_ = {"project_name_override": "caf\u00e9-client-zq", "package_name_override": "cafe_client_zq", "post_hooks": []}
+            for fmt_ in ("json", "yaml"):
+                add("cli_config_encoding", f"utf-8:{fmt_}", meta="poetry", via="cli", cfg=ccfg_, cfg_raw=True, cfg_fmt=fmt_)
+                for enc_ in ("cp1252", "utf-16"):
+                    add("cli_config_encoding", f"{enc_}:{fmt_}", meta="poetry", via="cli", cfg=ccfg_, cfg_raw=True, cfg_fmt=fmt_, file_encoding=enc_)
         if bi % 3 == 0:
             # template files are UTF-8 whatever encoding the output is written in
             add("custom_template+file_encoding", "cp1252", meta="none", custom_template_path=str(tdir), file_encoding="cp1252")
@@ -193,12 +205,15 @@ def main() -> int:
     res2 = dict(zip([j["id"] for j in phase2], run.map(phase2, timeout=300)))
     ct_ref = {}
     custom_ref = {}
+    cli_ref = {}
     for j in phase2:
         bi, option, variant = info[j["id"]]
         if option == "content_type_overrides" and variant == "reference":
             ct_ref[bi] = res2[j["id"]]
         if option == "custom_template_path":
             custom_ref[bi] = res2[j["id"]]
+        if option == "cli_config_encoding" and variant.startswith("utf-8:"):
+            cli_ref[(bi, variant.split(":")[1])] = res2[j["id"]]
     for j in phase2:
         bi, option, variant = info[j["id"]]
         label, d, feats = basedocs[bi]
@@ -347,6 +362,25 @@ def main() -> int:
                 else:
                     dec[k] = v
             differ(bt, dec, "decoded_text")
+        elif option == "cli_config_encoding":
+            enc_, fmt_ = variant.split(":")
+            ref = cli_ref.get((bi, fmt_))
+            if enc_ == "utf-8" or ref is None:
+                continue
+            ev.count("cli_config_encoding_pairs")
+            if ref.get("exc") or not ref.get("tree"):
+                continue
+            if res.get("exc") or not vt or (res.get("cli_exit") not in (None, 0)) != (ref.get("cli_exit") not in (None, 0)):
+                vd.violation(f"cli_config_encoding:outcome_differs:{enc_}:{fmt_}", f"{label}: --config <{fmt_} file with non-ASCII text> succeeds with the default encoding but with --file-encoding {enc_}: exit {res.get('cli_exit')} {res.get('exc') or (res.get('cli_stdout') or '')[-200:]}", w)
+                continue
+            import base64
+            dec = {}
+            for k, v in vt.items():
+                try:
+                    dec[k] = base64.b64decode(v["$b64"]).decode(enc_) if isinstance(v, dict) and "$b64" in v else (v.encode("utf-8").decode(enc_) if isinstance(v, str) else v)
+                except UnicodeError:
+                    dec[k] = "<undecodable>"
+            differ(ref["tree"], dec, f"decoded_text:{enc_}:{fmt_}")
         elif option == "custom_template+file_encoding":
             ref = custom_ref.get(bi)
             if ref and not ref.get("exc") and ref.get("tree"):
